@@ -62,11 +62,13 @@ Rebase(n, old, new) == new \o SubSeq(n, Len(old) + 1, Len(n))
 DefaultSpecial == <<"Sent", "Trash", "Junk", "Drafts", "Archive">>
 
 (* ---- snapshots ---------------------------------------------------------*)
-EmptySnap == [creds |-> {}, auth |-> {}, accts |-> {}, reach |-> {}, mboxes |-> {}, msgs |-> {}, nuv |-> 0]
+EmptySnap == [creds |-> {}, auth |-> {}, accts |-> {}, reach |-> {}, mboxes |-> {}, msgs |-> {}, nuv |-> 0, nblob |-> 0]
+(* bodies in the message store: one per (account, body), shared by copies  *)
+Blobs(msgs) == Cardinality({[acct |-> x.acct, body |-> x.body] : x \in {y \in msgs : y.body # "LOST"}})
 
 AuthSet(creds) == UNION {{[sp |-> sp, pw |-> c.pw] : sp \in {q \in ProbeSp : Canon(q) = c.name}} : c \in creds}
 ReachSet(accts) == {sp \in ProbeSp : Canon(sp) \in accts}
-Derive(s) == [s EXCEPT !.auth = AuthSet(s.creds), !.reach = ReachSet(s.accts)]
+Derive(s) == [s EXCEPT !.auth = AuthSet(s.creds), !.reach = ReachSet(s.accts), !.nblob = Blobs(s.msgs)]
 
 HasCred(s, k) == \E c \in s.creds : c.name = k
 HasMbox(s, ac, n) == \E m \in s.mboxes : m.acct = ac /\ m.name = n
@@ -187,26 +189,31 @@ MboxRemove(c, s, D) ==
 MboxRename(c, s, D) ==
   LET ac  == AcctOf(c.sp, D)
       old == c.mb
-      new == c.mb2 IN
+      new == c.mb2
+      isCh(n) == IF "RenameLike" \in D THEN LikeChild(old, n) ELSE IsChild(old, n) IN
   IF c.sp = "" \/ old = <<>> \/ new = <<>> THEN R("usage", s, D, c.k)
   ELSE IF ac \notin s.accts THEN R("fail", s, D, c.k)
   ELSE IF ~HasMbox(s, ac, old) /\ "RenameMissingOk" \notin D THEN R("fail", s, D, c.k)
   ELSE
-    LET s1    == WithParents(s, ac, new)
-        isCh(n) == IF "RenameLike" \in D THEN LikeChild(old, n) ELSE IsChild(old, n)
-        moved == {m \in s1.mboxes : m.acct = ac /\ (m.name = old \/ isCh(m.name))}
-        stay  == s1.mboxes \ moved
-        to(m) == IF m.name = old THEN new ELSE Rebase(m.name, old, new)
-        clash == \/ \E m \in moved : \E o \in stay : o.acct = ac /\ o.name = to(m)
-                 \/ \E m1, m2 \in moved : m1 # m2 /\ to(m1) = to(m2)
-        mvMsg(x) == IF x.acct = ac /\ \E m \in moved : m.name = x.mbox
-                    THEN [x EXCEPT !.mbox = IF x.mbox = old THEN new ELSE Rebase(x.mbox, old, new)] ELSE x
-        s2 == [s1 EXCEPT !.mboxes = stay \cup {[m EXCEPT !.name = to(m)] : m \in moved},
-                         !.msgs = {mvMsg(x) : x \in @}]
-        s3 == IF old = INBOX /\ HasMbox(s, ac, old)
-              THEN [s2 EXCEPT !.mboxes = @ \cup {NewMbox(ac, INBOX, "none", s2.nuv + 1)}, !.nuv = @ + 1]
-              ELSE s2 IN
-    IF clash THEN R("fail", s, D, c.k) ELSE R("ok", s3, D, c.k)
+    (* as the storage does it: superiors of the new name, the mailbox itself, *)
+    (* then - on the result - everything that counts as an inferior of old    *)
+    LET s1     == WithParents(s, ac, new)
+        has    == HasMbox(s, ac, old)
+        clash1 == has /\ HasMbox(s1, ac, new)
+        ren1(n) == IF has /\ n = old THEN new ELSE n
+        mb1    == {[m EXCEPT !.name = IF m.acct = ac THEN ren1(m.name) ELSE m.name] : m \in s1.mboxes}
+        ms1    == {[x EXCEPT !.mbox = IF x.acct = ac THEN ren1(x.mbox) ELSE x.mbox] : x \in s1.msgs}
+        ch     == {m \in mb1 : m.acct = ac /\ isCh(m.name)}
+        ren2(n) == IF isCh(n) THEN Rebase(n, old, new) ELSE n
+        clash2 == \/ \E m \in ch : \E o \in mb1 \ ch : o.acct = ac /\ o.name = ren2(m.name)
+                  \/ \E m1, m2 \in ch : m1 # m2 /\ ren2(m1.name) = ren2(m2.name)
+        mb2    == {[m EXCEPT !.name = IF m.acct = ac THEN ren2(m.name) ELSE m.name] : m \in mb1}
+        ms2    == {[x EXCEPT !.mbox = IF x.acct = ac THEN ren2(x.mbox) ELSE x.mbox] : x \in ms1}
+        s2     == [s1 EXCEPT !.mboxes = mb2, !.msgs = ms2]
+        s3     == IF old = INBOX /\ has
+                  THEN [s2 EXCEPT !.mboxes = @ \cup {NewMbox(ac, INBOX, "none", s2.nuv + 1)}, !.nuv = @ + 1]
+                  ELSE s2 IN
+    IF clash1 \/ clash2 THEN R("fail", s, D, c.k) ELSE R("ok", s3, D, c.k)
 
 MsgAdd(c, s, D) ==
   LET ac == AcctOf(c.sp, D) IN
@@ -269,8 +276,21 @@ MsgFlags(c, s, D) ==
                           ELSE x IN
             R("ok", [s EXCEPT !.msgs = {upd(x) : x \in @}], D, c.k)
 
+(* not a command: a message for RCPT TO:<spelling> arrives through the      *)
+(* server's delivery path (imapsql Start / AddRcpt / Body / Commit); it     *)
+(* lands in INBOX of the account the spelling denotes, or is refused        *)
+Deliver(c, s, D) ==
+  LET ac == Canon(c.sp) IN
+  IF ac \notin s.accts \/ ~HasMbox(s, ac, INBOX) THEN [res |-> "fail", ez |-> FALSE, s |-> Derive(s)]
+  ELSE LET m == MboxOf(s, ac, INBOX) IN
+       [res |-> "ok", ez |-> TRUE,
+        s |-> Derive([s EXCEPT !.mboxes = (@ \ {m}) \cup {[m EXCEPT !.next = @ + 1]},
+                               !.msgs = @ \cup {[acct |-> ac, mbox |-> INBOX, uid |-> m.next, body |-> c.body,
+                                                 flags |-> {}]}])]
+
 Step(c, s, D) ==
-  CASE c.k = "CredsCreate"   -> CredsCreate(c, s, D)
+  CASE c.k = "Deliver"       -> Deliver(c, s, D)
+    [] c.k = "CredsCreate"   -> CredsCreate(c, s, D)
     [] c.k = "CredsPassword" -> CredsPassword(c, s, D)
     [] c.k = "CredsRemove"   -> CredsRemove(c, s, D)
     [] c.k = "AcctCreate"    -> AcctCreate(c, s, D)
@@ -314,6 +334,7 @@ StateViol(s) ==
 \cup (IF \E x1, x2 \in s.msgs : x1 # x2 /\ x1.acct = x2.acct /\ x1.mbox = x2.mbox /\ x1.uid = x2.uid
       THEN {"DuplicateUid"} ELSE {})
 \cup (IF \E x \in s.msgs : x.body = "LOST" THEN {"BodyLost"} ELSE {})
+\cup (IF s.nblob # Blobs(s.msgs) THEN {"BlobCount"} ELSE {})
 
 (* ---- the history predicate: (account, mailbox, UIDVALIDITY, UID) names  *)
 (* one message for ever (RFC 3501 2.3.1.1)                                 *)
@@ -331,7 +352,7 @@ Fresh(c, b, a) ==
   /\ \A m \in mine : m.next = 1
   /\ {m.name : m \in mine} = {INBOX} \cup (IF c.su THEN {<<DefaultSpecial[i]>> : i \in 1..5} ELSE {})
 (* the messages outside the mailbox(es) a message command names            *)
-Others(c, x) == {y \in x.msgs : ~(y.mbox \in {c.mb, c.mb2} /\ Canon(c.sp) = y.acct)}
+Others(c, x) == {y \in x.msgs : ~(y.mbox \in (IF c.k = "Deliver" THEN {INBOX} ELSE {c.mb, c.mb2}) /\ Canon(c.sp) = y.acct)}
 
 (* mailboxes predicted (pred) against observed (ob): equal, except that    *)
 (* the UIDVALIDITY of a mailbox created by this step is whatever the       *)
@@ -354,6 +375,16 @@ UvRecycled(uvs, c, b, a) ==
   \E m \in a.mboxes : /\ [acct |-> m.acct, name |-> m.name] \in fresh
                        /\ [acct |-> m.acct, name |-> m.name, uv |-> m.uv] \in uvs
 
+(* diagnostic, not a violation: a mailbox created by this step carries a   *)
+(* UIDVALIDITY value that some mailbox carried before, or two of them the  *)
+(* same one (the storage seeds its generator with the current second)      *)
+UvCollision(uvs, c, b, a) ==
+  LET e == Step(c, b, {})
+      fresh == {m \in a.mboxes : \E x \in e.s.mboxes : x.acct = m.acct /\ x.name = m.name
+                                                      /\ x.uv \in FreshUv(b.mboxes, e.s.mboxes)} IN
+  \/ \E m \in fresh : \E u \in uvs \cup UvOf(b) : u.uv = m.uv
+  \/ \E m1, m2 \in fresh : m1 # m2 /\ m1.uv = m2.uv
+
 (* nuv is a counter of the model only *)
 Same(a, b) == [a EXCEPT !.nuv = 0] = [b EXCEPT !.nuv = 0]
 
@@ -365,7 +396,7 @@ StepViol(c, res, ez, b, a) ==
      (IF res = "fail" /\ ~Same(a, b) THEN {"FailedButChanged"} ELSE {})
 \cup (IF (c.k \in {"CredsRemove", "AcctRemove", "MboxRemove", "MsgRemove"}) /\ c.sp # "" /\ ~Yes(c.cf) /\ ~Same(a, b)
       THEN {"DestroyedOnNo"} ELSE {})
-\cup (IF (res = "fail") = ez THEN {"ExitStatus"} ELSE {})
+\cup (IF c.k # "Deliver" /\ (res = "fail") = ez THEN {"ExitStatus"} ELSE {})
 \cup (IF res # e.res THEN {"Result:" \o c.k} ELSE {})
 \cup (IF res = "ok" /\ a.creds # e.s.creds THEN {"Creds:" \o c.k} ELSE {})
 \cup (IF res = "ok" /\ a.accts # e.s.accts THEN {"Accts:" \o c.k} ELSE {})
@@ -373,7 +404,7 @@ StepViol(c, res, ez, b, a) ==
 \cup (IF res = "ok" /\ a.msgs # e.s.msgs THEN {"Msgs:" \o c.k} ELSE {})
 \cup (IF c.k = "AcctCreate" /\ res = "ok" /\ c.sp \notin a.reach THEN {"CreatedAccountUnreachable"} ELSE {})
 \cup (IF c.k = "AcctCreate" /\ res = "ok" /\ ~Fresh(c, b, a) THEN {"NewAccountNotEmpty"} ELSE {})
-\cup (IF c.k \in {"MsgAdd", "MsgRemove", "MsgCopy", "MsgMove", "MsgFlags"} /\ Others(c, a) # Others(c, b)
+\cup (IF c.k \in {"MsgAdd", "MsgRemove", "MsgCopy", "MsgMove", "MsgFlags", "Deliver"} /\ Others(c, a) # Others(c, b)
       THEN {"OtherMessagesTouched"} ELSE {})
 \cup (IF c.k \in {"CredsCreate", "CredsPassword"} /\ res = "ok" /\ [sp |-> c.sp, pw |-> c.pw] \notin a.auth
       THEN {"CannotLogIn"} ELSE {})
